@@ -11,6 +11,7 @@ import (
 	"path/filepath"
 	"strconv"
 	"sync"
+	"time"
 )
 
 // Env returns the value of an environment variable or a default.
@@ -62,7 +63,45 @@ type Trace struct {
 	f    *os.File
 	w    *bufio.Writer
 	n    int
-	path string
+	path   string
+	closed bool
+}
+
+// Watchdog starts a real-time watchdog: if no event is emitted for the
+// given duration, it appends the event produced by onStall, closes the
+// trace and ends the process with exit code 0 (the trace is the result).
+// It must be started outside of any synctest bubble.
+func (t *Trace) Watchdog(limit time.Duration, onStall func() Ev) {
+	// Emit() may run inside a synctest bubble where time is fake, so
+	// progress is measured by the event counter against real time here.
+	go func() {
+		seen, since := -1, time.Now()
+		for {
+			time.Sleep(limit / 10)
+			t.mu.Lock()
+			n := t.n
+			closed := t.closed
+			t.mu.Unlock()
+			if closed {
+				return
+			}
+			if n != seen {
+				seen, since = n, time.Now()
+				continue
+			}
+			if time.Since(since) > limit {
+				ev := onStall()
+				b, _ := json.Marshal(ev)
+				t.mu.Lock()
+				t.w.Write(b)
+				t.w.WriteByte('\n')
+				t.w.Flush()
+				t.f.Close()
+				t.mu.Unlock()
+				os.Exit(0)
+			}
+		}
+	}()
 }
 
 // NewTrace creates <OutDir>/<name>.
@@ -84,6 +123,7 @@ func (t *Trace) Emit(ev Ev) {
 	t.mu.Lock()
 	t.w.Write(b)
 	t.w.WriteByte('\n')
+	t.w.Flush() // a driver may be killed (or may exit) at any time: keep the file complete
 	t.n++
 	t.mu.Unlock()
 }
@@ -99,6 +139,10 @@ func (t *Trace) Len() int {
 func (t *Trace) Close() {
 	t.mu.Lock()
 	defer t.mu.Unlock()
+	if t.closed {
+		return
+	}
+	t.closed = true
 	t.w.Flush()
 	t.f.Close()
 }
